@@ -113,12 +113,13 @@ class ClassWorld:
         nc = len(bases)
         ops = []
         table = {
-            'C12': [('new', 4), ('iset', 5), ('cset', 4), ('imut', 3), ('cmut', 2), ('iattr', 2), ('cattr', 1.5), ('iobj', 1.5), ('cobj', 1),
+            'C12': [('new', 4), ('newshared', 1), ('iset', 5), ('cset', 4), ('imut', 3), ('cmut', 2), ('iattr', 2), ('cattr', 1.5), ('iobj', 1.5), ('cobj', 1),
                     ('touch', 1.5), ('lsp', 0.5), ('newdyn', 1.2)],
             'C13': [('new', 3), ('iset', 3), ('cset', 5), ('addp', 3), ('lsp', 3), ('getp', 2), ('inp', 1), ('vals', 2), ('repr', 1), ('touch', 1),
+                    ('ecblock', 1.2),
                     ('watchnew', 1), ('cparam', 2.5), ('poison', 1.5)],
-            'C14': [('new', 3), ('newk', 2), ('kset', 5), ('kupdate', 2), ('cset', 3), ('rset', 2), ('ec_open', 3), ('ec_close', 3), ('ec_raise', 1.5),
-                    ('touch', 1.5), ('iset', 2), ('nameset', 1), ('kref', 1.5), ('srcset', 1.5)],
+            'C14': [('new', 3), ('newk', 2), ('kset', 5), ('kupdate', 2), ('cset', 3), ('rset', 2), ('ec_open', 3), ('ec_close', 2.5), ('ec_close_first', 1), ('ec_raise', 1.5),
+                    ('touch', 1.5), ('iset', 2), ('nameset', 1), ('kref', 1.5), ('srcset', 1.5), ('newkref', 1), ('srcset_fail', 1)],
         }[prop]
         depth = 0
         for _ in range(n_ops):
@@ -136,12 +137,14 @@ class ClassWorld:
                     op['how'] = 'different'
                 else:
                     depth += 1
-            if k in ('ec_close', 'ec_raise'):
+            if k in ('ec_close', 'ec_raise', 'ec_close_first'):
                 if depth == 0:
                     op['op'] = 'kset'
                     op['how'] = 'different'
                 else:
                     depth -= 1
+            if k == 'kref':
+                op['same'] = rng.random() < 0.4
             if k == 'new' or k == 'newk':
                 op['kw'] = [p for p in used if p not in ('r',) and rng.random() < 0.3]
             if k == 'cparam':
@@ -180,6 +183,10 @@ class ClassWorld:
                 yield {**case, 'ops': ops[:i] + [{**op, 'kw': []}] + ops[i + 1:]}
 
     def run(self, case):
+        # process-global library state must not travel from one simulated run to the next (runs share a worker process)
+        import param
+        sp = param.parameterized.shared_parameters
+        sp._share, sp._shared_cache = False, {}
         r = _Run(case)
         try:
             r.execute()
@@ -285,6 +292,7 @@ class _Run:
         self.insts = []             # real
         self.im = []                # model: {'c': ci, 'values': {p: obj}, 'copies': {p: PM}}
         self.ec = []                # open edit_constant contexts: (cm, inst index)
+        self.fuzzy = set()          # objects whose overlapping edit_constant blocks were left out of order: undecided while any stays open
         self.ref_src = None         # source object whose Parameter is offered as a reference to constants
         self.veto_installed = False
         self.cache_read = set()     # classes whose namespace was read (probe)
@@ -312,7 +320,36 @@ class _Run:
         return None
 
     # -- instance creation ---------------------------------------------------------------------------------
-    def new_instance(self, ci, kwnames, dynamic=False):
+    def set_src(self, new, fail=False):
+        """only a constant linked in its constructor follows the source (a rejected reference left no link)"""
+        if new is self.ref_src.x:
+            return
+        equal = (new == self.ref_src.x)         # an equal value is no change: nothing is propagated to the links
+        linked = [j for j, m_ in enumerate(self.im) if m_.get('linked_k') and not equal]
+        h = None
+        if fail and linked:
+            # a callback of the linked constant fails while the new value is being propagated to it
+            def failing(*events):
+                raise RuntimeError('callback failed')
+            h = (self.insts[linked[0]], self.insts[linked[0]].param.watch(failing, ['k']))
+            self.out.stats['fault.failure_while_a_linked_constant_is_synchronised'] += 1
+        try:
+            self.ref_src.x = new
+        except RuntimeError:
+            pass
+        finally:
+            if h is not None:
+                h[0].param.unwatch(h[1])
+        for j in linked:
+            self.im[j]['values']['k'] = new
+
+    def make_ref_src(self):
+        if self.ref_src is None:
+            RS = type('RefSrc', (self.param.Parameterized,), {'x': self.param.Parameter(default=None)})
+            self.ref_src = RS(x=self.new_list())
+
+    def new_instance(self, ci, kwnames, dynamic=False, share=None, kref=False):
+        """share: the objects already instantiated for this class inside the current shared_parameters block"""
         if len(self.insts) >= 5:
             return
         kw, given = {}, {}
@@ -332,6 +369,9 @@ class _Run:
                     v = self.new_list() if KINDS.get(p, ('', False))[1] else self.fresh_int()
                 kw[p] = v
                 given[p] = v
+        if kref:
+            kw['k'] = self.ref_src.param.x
+            given['k'] = self.ref_src.x
         # expected constructor effects, from the governing Parameters *before* the call
         vals = {}
         adopt = {}
@@ -352,6 +392,15 @@ class _Run:
             if p in given:
                 continue
             real = getattr(o, p)
+            if share is not None and p in share:
+                # inside one shared_parameters block the instances of a class share what the first one instantiated
+                if real is not share[p]:
+                    self.viol('C12.instantiate_copy', f"second K{ci} instance of a shared_parameters block: {p} is {self.describe(real)}, expected the "
+                                                      f"object {self.describe(share[p])} instantiated for the first one")
+                vals[p] = real
+                continue
+            if share is not None:
+                share[p] = real
             if isinstance(src, list):
                 if self.label(real) is not None:
                     self.viol('C12.instantiate_copy', f"new K{ci} instance: {p} is the existing object {self.describe(real)}, expected a private copy of "
@@ -523,6 +572,13 @@ class _Run:
             self.new_instance(ci, op.get('kw', []) + (['k'] if k == 'newk' else []))
         elif k == 'newdyn':
             self.new_instance(ci, ['n'], dynamic=True)
+        elif k == 'newshared':
+            # two instances built inside one shared_parameters block; the block's cache ends with the block
+            share = {}
+            with param.shared_parameters():
+                self.new_instance(ci, [], share=share)
+                self.new_instance(ci, [], share=share)
+            self.out.stats['probe.shared_parameters_block'] += 1
         elif k == 'cset':
             if p not in self.visible(ci) or p == 'esel':
                 return
@@ -752,6 +808,9 @@ class _Run:
             inside = any(ii == i for _, ii in self.ec)
             if how == 'same':
                 o.k = cur                               # the identical object is always allowed
+                m['linked_k'] = False                   # (as a plain value it ends a link made by the constructor)
+                return
+            if i in self.fuzzy:
                 return
             new = self.register(list(cur)) if how == 'equal' and isinstance(cur, list) else self.new_list()
             try:
@@ -765,26 +824,39 @@ class _Run:
                 self.viol('C14.raises', f"constant I{i}.k was rebound to {self.describe(new)} ({how}) outside edit_constant")
             self.ensure_copy(i, 'k')
             m['values']['k'] = new
+            m['linked_k'] = False       # a plain value ends the link
         elif k == 'kref' and has_inst:
             # a reference handed to a constant parameter after construction: rejected, and it must not become a link
             m = self.im[i]
-            if 'k' not in self.visible(m['c']) or any(ii == i for _, ii in self.ec):
+            if 'k' not in self.visible(m['c']) or any(ii == i for _, ii in self.ec) or i in self.fuzzy:
                 return
-            if self.ref_src is None:
-                RS = type('RefSrc', (param.Parameterized,), {'x': param.Parameter(default=None)})
-                self.ref_src = RS(x=self.new_list())
+            self.make_ref_src()
+            if op.get('same'):
+                # the reference currently resolves to the very object the constant holds: still a reference, still rejected
+                self.set_src(m['values']['k'])
             try:
                 self.insts[i].k = self.ref_src.param.x
             except TypeError:
                 self.out.stats['reject.constant_reference'] += 1
                 return
             self.viol('C14.raises', f"a reference was accepted by constant I{i}.k outside edit_constant")
-        elif k == 'srcset':
-            if self.ref_src is not None:
-                self.ref_src.x = self.new_list()          # no constant may follow this (a rejected reference left no link)
+        elif k in ('srcset', 'srcset_fail'):
+            if self.ref_src is None:
+                return
+            self.set_src(self.new_list(), fail=(k == 'srcset_fail'))
+        elif k == 'newkref':
+            # a constant linked to a reference by its constructor (allowed there); it follows the source from then on
+            if 'k' in self.visible(ci) and not any(m_.get('linked_k') for m_ in self.im) and len(self.insts) < 5:
+                self.make_ref_src()
+                n0 = len(self.insts)
+                self.new_instance(ci, [], kref=True)
+                if len(self.insts) > n0:
+                    self.im[-1]['linked_k'] = True
+            else:
+                self.new_instance(ci, ['k'])
         elif k == 'kupdate' and has_inst:
             m = self.im[i]
-            if 'k' not in self.visible(m['c']):
+            if 'k' not in self.visible(m['c']) or i in self.fuzzy:
                 return
             inside = any(ii == i for _, ii in self.ec)
             new = self.new_list()
@@ -799,6 +871,7 @@ class _Run:
                 self.viol('C14.raises', f"constant I{i}.k was rebound through update() outside edit_constant")
             self.ensure_copy(i, 'k')
             m['values']['k'] = new
+            m['linked_k'] = False
         elif k == 'rset':
             if 'r' not in self.cfg['used']:
                 return
@@ -812,6 +885,8 @@ class _Run:
                 return
             self.viol('C14.raises', f"read-only parameter r was assigned at {op.get('lvl')} level")
         elif k == 'nameset' and has_inst:
+            if i in self.fuzzy:
+                return
             inside = any(ii == i for _, ii in self.ec)
             try:
                 self.insts[i].name = f"n{self.counter}"
@@ -822,6 +897,13 @@ class _Run:
                 return
             if not inside:
                 self.viol('C14.name_constant', f"I{i}.name was assigned after construction, outside edit_constant")
+        elif k == 'ecblock' and has_inst:
+            # a complete edit_constant block on an instance (entered internally by reference syncing too): no effect on any namespace
+            with param.parameterized.edit_constant(self.insts[i]):
+                pass
+            for q in ('k', 'r'):
+                if q in self.visible(self.im[i]['c']):
+                    self.ensure_copy(i, q)
         elif k == 'ec_open' and has_inst:
             cm = param.parameterized.edit_constant(self.insts[i])
             cm.__enter__()
@@ -829,6 +911,15 @@ class _Run:
             for q in ('k', 'r'):
                 if q in self.visible(self.im[i]['c']):
                     self.ensure_copy(i, q)
+        elif k == 'ec_close_first' and self.ec:
+            # overlapping blocks left in the order they were entered (generators, tasks, ExitStack): while one of them is still
+            # open the state of the object is not decided, once all are closed it is locked again
+            cm, ii = self.ec.pop(0)
+            if any(j == ii for _, j in self.ec):
+                self.fuzzy.add(ii)
+                self.out.stats['probe.edit_constant_blocks_left_out_of_order'] += 1
+            cm.__exit__(None, None, None)
+            self.fuzzy = {j for j in self.fuzzy if any(x == j for _, x in self.ec)}
         elif k in ('ec_close', 'ec_raise') and self.ec:
             cm, ii = self.ec.pop()
             if k == 'ec_raise':
@@ -840,6 +931,7 @@ class _Run:
                 self.out.stats['fault.edit_constant_left_by_exception'] += 1
             else:
                 cm.__exit__(None, None, None)
+            self.fuzzy = {j for j in self.fuzzy if any(x == j for _, x in self.ec)}
 
     def execute(self):
         out = self.out
